@@ -11,6 +11,7 @@ REPLAYERS = {q: 'replayers/map_results.py' for q in (
     'pool.IMapIterator._set_length', 'pool.IMapIterator.next', 'pool.IMapUnorderedIterator._set', 'pool.ApplyResult.get',
     'pool.mapstar', 'pool.starmapstar')}
 REPLAYERS['pool.TaskHandler.body'] = 'replayers/feeder_length.py'
+REPLAYERS['pool.Pool.imap'] = REPLAYERS['pool.Pool.imap_unordered'] = 'replayers/imap_entry.py'
 
 ASSUMPTIONS = [
     'a worker sends exactly one result per (job, chunk index) and runs the function of the task it was sent (C03); the result '
@@ -25,9 +26,6 @@ ASSUMPTIONS = [
 OUT_OF_REACH = [
     'Pool._get_tasks / mapstar (itertools.islice, map): that the chunks partition the input in order is the standard library\'s '
     'behaviour, cross-checked at run time by the replayer (bounded), not proved',
-    'imap with chunksize > 1 flattens chunks with a generator expression that the first failing chunk ends (defect D11, '
-    'DESIGN.md section 8: natively [1, 2, Exception, STOP]); the flattening generator is not under contract -- not proved, and '
-    'reported by the replayer only',
     'which worker runs which chunk, and when (any arrival order is covered; that all chunks do arrive is liveness)',
 ]
 
@@ -55,6 +53,76 @@ def sp_res(ex, k):
     """res(k): the result record (success, value) of input k -- whatever the worker that ran it sent"""
     k = as_arith(k)
     return STup([SV(BoolS, _res[0](k)), SV(ValS, _res[1](k))])
+
+
+
+def sp_resumable(ex, v):
+    """can next() be called again after it raised?  The imap handles can (their next() is under contract above: a
+    failed item raises at its position and the iterator goes on); a generator object cannot -- language rule: a
+    generator whose frame raised is finished, every later next() raises StopIteration"""
+    from pyvc.evalexpr import VGenObj
+    if isinstance(v, VGenObj):
+        return mk_bool(False)
+    if isinstance(v, SRef) and v.shape.cls == 'Job':
+        return mk_bool(True)
+    raise ContractError('resumable(%r)' % (v,))
+
+
+def sp_is_handle(ex, v):
+    return mk_bool(isinstance(v, SRef) and v.shape.cls == 'Job')
+
+
+def ext_get_tasks(ex, args, kw):
+    """Pool._get_tasks(func, it, size): a generator of (func, chunk) pairs (itertools.islice; out of reach)"""
+    return SV(ValS, z3.Const(fresh_name('task_batches'), Val))
+
+
+def entry_contract(w, variant):
+    """Pool.imap / Pool.imap_unordered: what the caller gets back"""
+    import pool_shared as ps2
+    w.spec_funcs['resumable'] = sp_resumable
+    w.spec_funcs['is_handle'] = sp_is_handle
+    g = w.classes['g']
+    g.fields.update({'queued': IntS})
+    P = w.classes['Pool']
+    P.fields.update({'_taskqueue': ValS})
+
+    def put(ex, args, kw):
+        gset(ex, 'queued', SV(IntS, gget(ex, 'queued').e + 1))
+        return SNone()
+
+    def ext_handle(ex, args, kw):
+        """IMapIterator(cache, lost_worker_timeout=...): a new handle, registered in the cache under a new id"""
+        cache = args[0]
+        j = SRef(ref('Job'), ex.path.new_id('Job'))
+        jid = IntS.fresh('new_job_id')
+        has = ex.path.read_field(cache, 'has')
+        ex.path.assume(z3.Not(has.shape.select(has, jid).e))
+        ex.path.write_field(j, '_job', jid)
+        ex.path.write_field(j, '_cache', cache)
+        ex.path.write_field(j, '_index', mk_int(0))
+        ex.path.write_field(j, '_ready', mk_bool(False))
+        val = ex.path.read_field(cache, 'val')
+        ex.path.write_field(cache, 'has', has.shape.store(has, jid, mk_bool(True)))
+        ex.path.write_field(cache, 'val', val.shape.store(val, jid, j))
+        return j
+    name = 'imap' if variant == 'imap' else 'imap_unordered'
+    cls = 'IMapIterator' if variant == 'imap' else 'IMapUnorderedIterator'
+    return Contract(
+        'pool.Pool.' + name, prop=PROP, variants=[variant],
+        params={'self': ref('Pool'), 'func': ValS, 'iterable': ValS, 'chunksize': IntS, 'lost_worker_timeout': opt(RealS)},
+        externals={'<opaque>.put': put, 'pool.' + cls: ext_handle, 'pool.Pool._get_tasks': ext_get_tasks},
+        requires={'pool': 'allocated(self._cache) and g.queued == 0 and chunksize >= 1 and self._state == 0'},
+        modifies=['g.queued', 'self._cache.*', 'Job.*'],
+        ensures={
+            'one_task_sequence_is_queued': 'g.queued == 1',
+            # C02: "imap iterators raise at the failing item's position ... and then go on with the remaining items"
+            'iterator_goes_on_after_a_failing_item': 'implies(chunksize == 1, resumable(result))',
+            'iterator_goes_on_after_a_failing_chunk': 'implies(chunksize != 1, resumable(result))',
+            'unchunked_result_is_the_registered_handle': 'implies(chunksize == 1, is_handle(result))',
+        },
+        raises={'AssertionError': {'never': 'False'}},
+    )
 
 
 def build_imap(w, variant):
@@ -123,6 +191,7 @@ def build_imap(w, variant):
                                                      'self._ready and not has(self._cache, self._job))',
             },
         ))
+    out.append(entry_contract(w, variant))
     cls = 'IMapIterator'
     if variant == 'imap':
         out.append(Contract(
@@ -313,9 +382,14 @@ MANIFEST_ENTRY = {
             'invariant over the drain loop), buffers an early result under its own index, never drops or reorders queued items, '
             'and finishes exactly when all were released; _set_length finishes at once if everything was already released; '
             'next() hands out the oldest queued item, raises at a failed item\'s position and leaves the rest queued in order, '
-            'and stops only when everything was handed out; IMapUnorderedIterator._set queues every result once as it arrives.',
+            'and stops only when everything was handed out; IMapUnorderedIterator._set queues every result once as it arrives.  '
+            'Pool.imap / imap_unordered: one task sequence is queued, a new handle is registered, and what the caller gets back '
+            'goes on after a failing item for chunksize 1 (it is the handle whose next() is proved above); for chunksize > 1 it is '
+            'a generator expression, which the first failing chunk finishes -- refuted by the language rule, KNOWN-FINDING D11a / '
+            'D11b with a replay on the real code.',
     'note': 'Not proved: _get_tasks / mapstar (itertools.islice, map) are the standard library\'s -- cross-checked at run time by '
             'the replayer only; the imap iterators (ordering buffer) are covered by the second half of this check where stated in '
-            'the evidence, and imap with chunksize > 1 stops at the first failing chunk (D11, DESIGN.md section 8; not under '
-            'contract).  Results arrive exactly once per chunk by C03; the induction over arrivals is a meta-argument.',
+            'the evidence.  D11 (imap with chunksize > 1 stops at the first failing chunk) is recorded, not repaired: the '
+            'behaviour is inherited from CPython\'s multiprocessing and replacing the generator by a resumable iterator class changes '
+            'the type handed to callers.  Results arrive exactly once per chunk by C03; the induction over arrivals is a meta-argument.',
 }
